@@ -132,6 +132,11 @@ def run_case(spec, ctx):
                          else (lambda t, xi: F0 * (1 + a_ * xi + b_ * np.sin(c_ * xi))))
             ctx.cls(f"lineload:profile:{profile}")
             elem = Force_line_distributed(force, body)
+            if rng.random() < 0.6:
+                # other coordinates before the rod's (the rod's local and the system's global numbering differ)
+                other, _, _, _ = gen.make_subsystem(rng, ["rigid_body", "point_mass"][int(rng.integers(2))], "other")
+                system.add(other)
+                ctx.cls("lineload:rod_not_first_in_system")
             system.add(body, elem)
             det.update(rinfo); det["force_time_dependent"] = timedep; det["load_profile"] = profile
             conservative = True
